@@ -75,7 +75,7 @@ def run(ctx):
         import c08, c10
         # a value that came from the variant consumed nothing: the wrappers must still treat a failed conversion / guard of it as final
         ctx.guard(c08.keep_only, ctx, lambda: c06.k3(ctx, cfg, fs, c06.k1(ctx, cfg, fs)),
-                  lambda o: o.rule == 'K3.consult' and 'parse_option:Err(' in o.key and 'consumed=False' in o.key and any(v_ in o.key for v_ in ('ParseFailed', 'GuardFailed')), 'V.same-validation')
+                  lambda o: o.rule == 'K3.consult' and any(v_ in o.key for v_ in ('ParseFailed', 'GuardFailed')) and (('parse_option:Err(' in o.key and 'consumed=False' in o.key) or 'ParseFallback' in o.key), 'V.same-validation')
         ctx.guard(c08.keep_only, ctx, lambda: c06.k3(ctx, cfg, fs, c06.k1(ctx, cfg, fs)),
                   lambda o: o.rule == 'K3.consult' and ('Err(NoEnv)' in o.key or 'Err(Missing)' in o.key), 'M.both-absent')
         ctx.guard(c08.keep_only, ctx, lambda: c10.usage_fallback(ctx, cfg, ctx.look(fs.one(r'^info::OptionParser::<T>::run_subparser$')), 'U.usage-fallback'), lambda o: True, 'U.usage-fallback')
